@@ -78,9 +78,33 @@ enum Ev {
     /// pending timer is due and then publishes at QoS 0: that call first writes the owed PUBACK - which the transport
     /// stalls for three seconds - then whatever keep-alive traffic is due, then the publish; then it polls again
     InboundQos1ThenPublishAtTimerWithStalledWrite,
+    /// the first three bytes of an inbound QoS 0 publish arrive now; the rest is still under way
+    InboundFirstBytes,
+    /// the rest of that publish arrives now
+    InboundRest,
 }
 
-const EVENTS: [Ev; 25] = [
+impl Ev {
+    fn pushes_inbound(self) -> bool {
+        matches!(
+            self,
+            Ev::Inbound
+                | Ev::InboundJustBeforeTimer
+                | Ev::PingResp
+                | Ev::PingRespJustBeforeTimer
+                | Ev::PingRespAtTimer
+                | Ev::PubAck
+                | Ev::PubRec
+                | Ev::PubComp
+                | Ev::PingRespJustBeforeDeadline
+                | Ev::PingRespAtDeadline
+                | Ev::InboundQos1ThenPublishAtTimerWithStalledWrite
+                | Ev::InboundFirstBytes
+        )
+    }
+}
+
+const EVENTS: [Ev; 27] = [
     Ev::TimerExact,
     Ev::TimerLate,
     Ev::Inbound,
@@ -106,6 +130,8 @@ const EVENTS: [Ev; 25] = [
     Ev::PubRec,
     Ev::PubComp,
     Ev::InboundQos1ThenPublishAtTimerWithStalledWrite,
+    Ev::InboundFirstBytes,
+    Ev::InboundRest,
 ];
 
 pub struct C10 {
@@ -143,6 +169,8 @@ struct Mon {
     ping_stalled: bool,
     /// outstanding QoS 2 publish: identifier and whether its PUBREC has been sent to the client
     qos2_outstanding: Option<(u16, bool)>,
+    /// the broker is in the middle of sending a packet
+    half_in: bool,
 }
 
 impl C10 {
@@ -323,6 +351,22 @@ impl Model for C10 {
                                     let wake_ms = wake.map(|t| t / clock::TICKS_PER_MS);
                                     let mut na = false;
                                     match ev {
+                                        // a broker sends one packet after the other
+                                        _ if mon.half_in && ev.pushes_inbound() => na = true,
+                                        Ev::InboundFirstBytes => {
+                                            bench.push(id, &[0x30, 0x05, 0x00]);
+                                            mon.half_in = true;
+                                            log!("the first three bytes of an inbound QoS 0 publish at {} ms", now_ms());
+                                        }
+                                        Ev::InboundRest => {
+                                            if mon.half_in {
+                                                bench.push(id, &[0x01, b'a', 0x00, 0x55]);
+                                                mon.half_in = false;
+                                                log!("the rest of the inbound publish at {} ms", now_ms());
+                                            } else {
+                                                na = true;
+                                            }
+                                        }
                                         Ev::TimerExactThenFlushStallsAndCancel => match wake {
                                             Some(t) if t > clock::now() => {
                                                 clock::set(t);
@@ -674,6 +718,7 @@ impl Model for C10 {
                 mon.qos1_outstanding.is_some().hash(&mut h);
                 mon.qos2_outstanding.map(|q| q.1).hash(&mut h);
                 mon.dead.hash(&mut h);
+                mon.half_in.hash(&mut h);
                 clock::wake().map(|t| t.saturating_sub(clock::now())).hash(&mut h);
                 let key = if viol.is_empty() { h.finish128() } else { 0xBAD };
                 (Some(key), viol, hash_of(&(class, mon.pings.min(3), mon.dead)))
